@@ -47,6 +47,16 @@ def exec_DR(t):
         a = mk().dtype
         b = mk().get_dtype('Q')
         c = mk().get_dtype('fxp')
+        # asking for a rendering does not change the attribute: it stays what it was, before and after either request, and it follows
+        # a later change of the configured notation
+        x_ = mk()
+        a0 = x_.dtype; x_.get_dtype('Q'); a1 = x_.dtype; x_.get_dtype('fxp'); a2 = x_.dtype
+        if not (a0 == a1 == a2 == a):
+            return ['DTYPE_ATTRIBUTE_MOVED:%s,%s,%s' % (a0, a1, a2)]
+        other = 'Q' if cfg == 'fxp' else 'fxp'
+        x_.config.dtype_notation = other
+        if x_.dtype != (b if other == 'Q' else c):
+            return ['DTYPE_ATTRIBUTE_STALE:%s' % x_.dtype]
     except Exception as e:
         return [exc_token(e)]
     return [a, b, c]
@@ -120,7 +130,7 @@ def generate(tier, rng):
                     sp = spellings(rng, s, n, f, cx)
                     picks = sp if n <= 8 or tier == 'thorough' else [sp[0], rng.choice(sp)]
                     for st in picks:
-                        routes = ['ctor', 'resize', 'resize_val', 'resize_int', 'resize_intval', 'ctor_like', 'ctor_like_val'] + (['fxpsum'] if st == sp[0] and f <= 60 else [])   # fxp_sum: the canonical x.dtype spelling
+                        routes = ['ctor', 'resize', 'resize_val', 'resize_int', 'resize_intval', 'ctor_like', 'ctor_like_val'] + (['fxpsum'] if f <= 60 else [])   # fxp_sum(dtype=): every spelling (the docstring recommends dtype=x.dtype, which is a Q string under that default)
                         for route in (routes if (n <= 6 or tier == 'thorough') else [rng.choice(routes)]):
                             if route in ('resize_val', 'resize_intval', 'ctor_like_val') and (n > 52 or f > 60 or cx):
                                 continue        # (a real value stored under a -complex string stays a real object: the value decides, not demanded here)
